@@ -90,10 +90,10 @@ PROPS = {
     "C14": {
         "modules": ["CambrianModel.Props.C14"],
         "theorems": ["Cambrian.Props.C14_counts", "Cambrian.Props.C14_counts_always", "Cambrian.Props.C14_items",
-                     "Cambrian.Props.C14_file", "Cambrian.Props.C14_meta_probs", "Cambrian.Props.C14_drained", "Cambrian.Props.C14_drained_step"],
+                     "Cambrian.Props.C14_file", "Cambrian.Props.C14_meta_probs", "Cambrian.Props.C14_meta_scale", "Cambrian.Props.C14_drained", "Cambrian.Props.C14_drained_step"],
         "correspondences": ["proc", "ctl", "algo", "run"],
         "trusted": PROC_TRUST + CTL_TRUST + ["float law FL-mul-sign (product of a number >= 0 and a positive finite factor is a number >= 0)"],
-        "assumptions": ["partial: 'positive finite mutation scale' is not provable (unclamped product); it is checked on every in-run record and CSV row"],
+        "assumptions": ["float law FL-mul-sign for the observed products; the clamp of the mutation scale is an extracted source fact (Generated.scaleClamped)"],
     },
     "C15": {
         "modules": ["CambrianModel.Props.C15"],
